@@ -161,6 +161,17 @@ def parseOp (ws : List String) : Option Op :=
   | ["rfund", a, b] => do pure (.fundRouter (← a.toNat?) (← b.toNat?))
   | ["xnext", w, n, pl] => do pure (.nextLoanBy (← w.toNat?) (← n.toNat?) (← parseRActs pl))
   | ["xcomplete", w, i, n] => do pure (.completeLoanBy (← w.toNat?) (← i.toNat?) (← n.toNat?))
+  -- entry points a cw20-LP vault refuses: direct `Withdraw {}` (`sel` = attached coins), `Withdraw`
+  -- hook from the asset token, `Callback(AfterTrade)` from an ordinary account
+  | ["wdirect", w, sel, n] => do
+    let w ← w.toNat?; let sel ← sel.toNat?; let n ← n.toNat?
+    if w ≥ 4 ∨ sel > 3 then none else pure (.foreign 0 w sel n)
+  | ["wfake", w, n] => do
+    let w ← w.toNat?; let n ← n.toNat?
+    if w ≥ 4 then none else pure (.foreign 1 w n 0)
+  | ["xafter", w, old, n] => do
+    let w ← w.toNat?; let old ← old.toNat?; let n ← n.toNat?
+    if w ≥ 4 then none else pure (.foreign 2 w old n)
   | _ => none
 
 def stepLine (s : St) (ws : List String) : St × String :=
